@@ -1,4 +1,5 @@
 import PsiProofs.Helper.C11_SplitCases
+import PsiProofs.Helper.C11_KF1
 /-!
 # C11 — annotated arrays keep time base, channel labels and metadata aligned
 
@@ -362,6 +363,97 @@ theorem finalize_keeps (a : PD) (hwf : WF a) (data' : List Nat) :
   | d2 c n data s0 fs l m hd hl => simp [finalize]
   | d3 e c n data s0 fs l ms hd hl hm => simp [finalize]
 
+/-! ### Known finding C11-KF1: its boundary as a theorem -/
+
+/-- the oracle's "counts equal the axis lengths": a channel list has `shape[-2]` entries, a metadata list `shape[-3]`
+(`shape[-2]` on a 2-D result); lists only on ≥ 2-D results. -/
+def countsMatch (r : PD) : Prop :=
+  (∀ l, r.channel = .many l → 2 ≤ r.ndim ∧ l.length = shapeM2 r.shape) ∧
+  (∀ ms, r.metadata = .many ms → 2 ≤ r.ndim ∧ ms.length = (if 3 ≤ r.ndim then shapeM3 r.shape else shapeM2 r.shape))
+
+theorem itemSel_fancy_lt {it : Item} {n : Nat} {ps : List Nat} (h : itemSel it n = .ok (.fancy ps)) : ∀ p ∈ ps, p < n := by
+  cases it with
+  | int i => simp only [itemSel, Except.map] at h; split at h <;> cases h
+  | slice s => simp only [itemSel, Except.map] at h; split at h <;> cases h
+  | newaxis => cases h
+  | ellipsis => cases h
+  | ilist l => exact itemSel_lt (it := .ilist l) trivial h
+  | iarr l => exact itemSel_lt (it := .iarr l) trivial h
+  | blist l => exact itemSel_lt (it := .blist l) trivial h
+  | barr l => exact itemSel_lt (it := .barr l) trivial h
+
+/-- **C11-KF1 boundary, inside: at most one list/mask entry ⇒ counts always equal the axis lengths.**
+For every well-formed 3-D array and every index expression `x[eIt, cIt, ts]` with `eIt`, `cIt` an int, a slice (step ≥ 1),
+an int list or a bool list that NumPy accepts on its axis and `ts` any slice NumPy accepts on the time axis: if at most one
+of `eIt`, `cIt` is a list/mask, indexing succeeds, every entry keeps its own axis (`shape = axes(eIt) ++ axes(cIt) ++ [len]`),
+the labels / metadata are those of the selected rows, and their counts equal the lengths of these axes (`countsMatch`: the
+harness oracle's check). -/
+theorem single_advanced_counts (e c n : Nat) (data : List Nat) (s0 : Int) (fs : Rat) (l : List Label) (ms : List Md)
+    (hl : l.length = c) (hm : ms.length = e) (eIt cIt : Item) (he : eIt.simple ∧ eIt.selects)
+    (hc : cIt.simple ∧ cIt.selects) (ts : PySlice) (selE selC : Sel) (tps : List Nat)
+    (hE : itemSel eIt e = .ok selE) (hC : itemSel cIt c = .ok selC) (hT : slicePositions ts n = .ok tps)
+    (h1 : ¬ (selE.isFancy = true ∧ selC.isFancy = true)) :
+    ∃ r, getitem ⟨[e, c, n], data, s0, fs, .many l, .many ms⟩ (.tuple [eIt, cIt, .slice ts]) = .ok (.arr r) ∧
+      r.shape = selShape selE ++ selShape selC ++ [tps.length] ∧
+      r.channel = selChan l selC ∧ r.metadata = selMeta ms selE ∧
+      chanCount r.channel = (selShape selC).head? ∧ metaCount r.metadata = (selShape selE).head? ∧
+      countsMatch r := by
+  obtain ⟨sel, hnp, hsh⟩ := npOfSels_single selE selC tps (c * n) n (itemSel_ne_new he.1 hE) (itemSel_ne_new hc.1 hC) h1
+  rw [← npGetitem_ecs e c n eIt cIt he.1 hc.1 ts selE selC tps hE hC hT] at hnp
+  obtain ⟨S, F, hg⟩ := getitem_ecs e c n data s0 fs l ms hl hm eIt cIt he.1 hc.1 ts selE selC tps hE hC hT sel hnp
+  have hcl := selChan_count l selC (hl ▸ itemSel_lt hc.2 hC)
+  have hml := selMeta_count ms selE (hm ▸ itemSel_lt he.2 hE)
+  refine ⟨_, hg, hsh, rfl, rfl, hcl, hml, ?_⟩
+  simp only [countsMatch, hsh, PD.ndim]
+  have hne := itemSel_ne_new he.1 hE
+  have hnc := itemSel_ne_new hc.1 hC
+  cases selE <;> cases selC <;>
+    simp_all [selChan, selMeta, selShape, shapeM2, shapeM3, chanCount, metaCount, Sel.isFancy]
+
+
+/-- **C11-KF1 boundary, outside: two list/mask entries.** With a list/mask on the epoch AND on the channel axis, whenever
+indexing returns at all it returns an array whose two selected axes are merged into ONE axis of the broadcast length `k`
+(NumPy pairs the two lists element-wise) while `len(pc)` labels and `len(pe)` metadata entries are attached per axis;
+the counts equal the axis length **iff the two lists have the same length** — so the finding consists exactly of the
+expressions with two list/mask entries of different lengths (one of them of length 1, broadcast). -/
+theorem two_advanced_boundary (e c n : Nat) (data : List Nat) (s0 : Int) (fs : Rat) (l : List Label) (ms : List Md)
+    (hl : l.length = c) (hm : ms.length = e) (eIt cIt : Item) (he : eIt.simple) (hc : cIt.simple) (ts : PySlice)
+    (pe pc tps : List Nat) (hE : itemSel eIt e = .ok (.fancy pe)) (hC : itemSel cIt c = .ok (.fancy pc))
+    (hT : slicePositions ts n = .ok tps) (res : Res)
+    (hres : getitem ⟨[e, c, n], data, s0, fs, .many l, .many ms⟩ (.tuple [eIt, cIt, .slice ts]) = .ok res) :
+    ∃ r k, res = .arr r ∧ r.shape = [k, tps.length] ∧
+      r.channel = .many (listTake l pc) ∧ r.metadata = .many (listTake ms pe) ∧
+      (listTake l pc).length = pc.length ∧ (listTake ms pe).length = pe.length ∧
+      (countsMatch r ↔ pe.length = pc.length) := by
+  have hnpe := npGetitem_ecs e c n eIt cIt he hc ts _ _ tps hE hC hT
+  cases hnp : npGetitem [e, c, n] [eIt, cIt, .slice ts] with
+  | error err =>
+    simp [getitem, getitemG, Index.items, hnp] at hres
+  | ok sel =>
+    obtain ⟨S, F, hg⟩ := getitem_ecs e c n data s0 fs l ms hl hm eIt cIt he hc ts _ _ tps hE hC hT sel hnp
+    rw [hg] at hres
+    cases hres
+    rw [hnpe] at hnp
+    obtain ⟨k, hk, hiff⟩ := npOfSels_two pe pc tps (c * n) n sel hnp
+    have hlc : (listTake l pc).length = pc.length := listTake_length l pc (hl ▸ itemSel_fancy_lt hC)
+    have hlm : (listTake ms pe).length = pe.length := listTake_length ms pe (hm ▸ itemSel_fancy_lt hE)
+    refine ⟨_, k, rfl, hk, rfl, rfl, hlc, hlm, ?_⟩
+    rw [← hiff]
+    simp only [countsMatch, selChan, selMeta, hk, PD.ndim, shapeM2, shapeM3]
+    simp [hlc, hlm]
+    omega
+
+
+/-- **C11-KF1, the witness pinned by the repository's test** (`data3d[[0, 2], [0]]`): two list entries are paired
+element-wise — one merged axis of length 2 — while one channel label and two metadata entries are attached. -/
+theorem kf1_counterexample :
+    (getitem ⟨[3, 2, 1], [0, 1, 2, 3, 4, 5], 0, 1, .many [some "a", some "b"], .many [10, 11, 12]⟩
+        (.tuple [.ilist [0, 2], .ilist [0]])).toOption.map
+      (fun r => match r with | .arr b => (b.shape, b.channel, b.metadata) | .scalar _ => ([], .one none, .one 0)) =
+      some ([2, 1], .many [some "a"], .many [10, 12]) := by
+  decide +kernel
+
+
 /-! ### The code as found (`getitemOrig`) violates the property: counterexamples -/
 
 /-- defect 17: `x[-2:]` on one sample moves `s0` from 0 to −1 (the time axis of the slice is shifted). -/
@@ -415,6 +507,15 @@ example : itemSel (.int (-1)) 3 = .ok (.idx 2) := rfl
 /-- a rejected pair: the second piece starts one sample late. -/
 example : (5 : Int) ≠ 0 + (4 : Nat) ∨ (1 : Rat) ≠ 1 ∨ (none : Label) ≠ none ∨ (0 : Md) ≠ 0 := .inl (by decide)
 
+/-- `x[[0, 2], 0, 1:]` on (3, 2, 4): one list entry — hypotheses of `single_advanced_counts`. -/
+example : (Item.ilist [0, 2]).simple ∧ (Item.ilist [0, 2]).selects ∧ (Item.int 0).simple ∧ (Item.int 0).selects ∧
+    itemSel (.ilist [0, 2]) 3 = .ok (.fancy [0, 2]) ∧ itemSel (.int 0) 2 = .ok (.idx 0) ∧
+    slicePositions ⟨some 1, none, none⟩ 4 = .ok [1, 2, 3] ∧
+    ¬ ((Sel.fancy [0, 2]).isFancy = true ∧ (Sel.idx 0).isFancy = true) :=
+  ⟨trivial, trivial, trivial, trivial, rfl, rfl, rfl, by simp [Sel.isFancy]⟩
+/-- `x[[0, 2], [0], :]`: two list entries of lengths 2 and 1 — hypotheses of `two_advanced_boundary`; lengths differ. -/
+example : itemSel (.ilist [0, 2]) 3 = .ok (.fancy [0, 2]) ∧ itemSel (.ilist [0]) 2 = .ok (.fancy [0]) ∧
+    ([0, 2] : List Nat).length ≠ ([0] : List Nat).length := ⟨rfl, rfl, by decide⟩
 /-- cuts `[-1, 5]` on the channel axis (2 channels) of a 3-D array: clamped to `[1, 2]`, nondecreasing. -/
 example : Dim.channel.k ≤ PD.ndim ⟨[2, 2, 1], [0, 1, 2, 3], 5, 1728, .many [none, some "b"], .many [0, 1]⟩ ∧
     (([-1, 5] : List Int).map (clampPos · (axisLen ⟨[2, 2, 1], [0, 1, 2, 3], 5, 1728, .many [none, some "b"], .many [0, 1]⟩
